@@ -207,17 +207,7 @@ func genC13World(c *Ctx) *c13world {
 			// mixed dialects: a root of one draft with an embedded resource that declares the other
 			// one, each using keywords whose meaning depends on the draft in force
 			s.Kind = "mixed-draft"
-			old := `{"$schema":"http://json-schema.org/draft-07/schema#","$id":"http://m.test/old.json","items":[{"type":"integer"}],"additionalItems":false,"dependencies":{"x":["y"]}}`
-			neu := `{"$schema":"https://json-schema.org/draft/2020-12/schema","$id":"http://m.test/new.json","prefixItems":[{"type":"string"}],"items":false,"dependentRequired":{"x":["y"]}}`
-			if c.W(2) == 0 {
-				s.Text = `{"$schema":"https://json-schema.org/draft/2020-12/schema","properties":{"a":{"$ref":"#/$defs/old"},"b":{"prefixItems":[{"type":"string"}],"items":false},"c":{"$ref":"#/$defs/old"}},"$defs":{"old":` + old + `}}`
-			} else {
-				s.Text = `{"$schema":"http://json-schema.org/draft-07/schema#","properties":{"a":{"$ref":"#/definitions/new"},"b":{"items":[{"type":"integer"}],"additionalItems":false},"c":{"$ref":"#/definitions/new"}},"definitions":{"new":` + neu + `}}`
-			}
-			vals := []any{[]any{1.0, "x"}, []any{"s", 1.0}, []any{1.0}, []any{"s"}, map[string]any{"x": 1.0}, map[string]any{"x": 1.0, "y": 2.0}, []any{}, "str"}
-			for j := 0; j < 5; j++ {
-				s.Insts = append(s.Insts, map[string]any{"a": pick(c, vals), "b": pick(c, vals), "c": pick(c, vals)})
-			}
+			s.Text, s.Insts = GenMixedDraft(c)
 		case 4:
 			s.Kind = "wide"
 			doc := GenWideDoc(c)
@@ -411,4 +401,25 @@ func driveC13(c *Ctx) {
 		c.Sample = map[string]any{"schemas": texts, "goroutines": k, "operations": fmt.Sprint(ops), "density": density, "cold": cold,
 			"switches": st.Switches, "preemptions": st.Preemptions}
 	}
+}
+
+// GenMixedDraft returns a schema whose root is of one draft and which embeds a resource that
+// declares the other one, each using keywords whose meaning depends on the draft in force, and
+// instances that exercise them. No model of the "right" verdict is attached: the worlds are used
+// where only determinism, purity and race-freedom are asserted.
+func GenMixedDraft(c *Ctx) (string, []any) {
+	old := `{"$schema":"http://json-schema.org/draft-07/schema#","$id":"http://m.test/old.json","items":[{"type":"integer"}],"additionalItems":false,"dependencies":{"x":["y"]}}`
+	neu := `{"$schema":"https://json-schema.org/draft/2020-12/schema","$id":"http://m.test/new.json","prefixItems":[{"type":"string"}],"items":false,"dependentRequired":{"x":["y"]}}`
+	var text string
+	if c.W(2) == 0 {
+		text = `{"$schema":"https://json-schema.org/draft/2020-12/schema","properties":{"a":{"$ref":"#/$defs/old"},"b":{"prefixItems":[{"type":"string"}],"items":false},"c":{"$ref":"#/$defs/old"}},"$defs":{"old":` + old + `}}`
+	} else {
+		text = `{"$schema":"http://json-schema.org/draft-07/schema#","properties":{"a":{"$ref":"#/definitions/new"},"b":{"items":[{"type":"integer"}],"additionalItems":false},"c":{"$ref":"#/definitions/new"}},"definitions":{"new":` + neu + `}}`
+	}
+	vals := []any{[]any{1.0, "x"}, []any{"s", 1.0}, []any{1.0}, []any{"s"}, map[string]any{"x": 1.0}, map[string]any{"x": 1.0, "y": 2.0}, []any{}, "str"}
+	var insts []any
+	for j := 0; j < 5; j++ {
+		insts = append(insts, map[string]any{"a": pick(c, vals), "b": pick(c, vals), "c": pick(c, vals)})
+	}
+	return text, insts
 }
